@@ -21,6 +21,11 @@ void Executor::op_query(const Op& op, TaskCtx& t) {
   else if (what == "params") check_params(*o);
   else if (what == "ratinverse") check_ratinverse(*o);
   else if (what == "sync") { if (o->s->getInt(P::i("syncmode")) == 1) check_sync(*o); }
+  else if (what == "dumpbasis") {   // debugging aid for replays: print what the basis queries return
+    auto& s = *o->s; std::vector<int> r, c, b; s.getBasis(r, c); s.getBasisInd(b, s.numRows() + 4);
+    fprintf(stderr, "[dumpbasis] hasBasis=%d basisStatus=%d rows=%d cols=%d rowstat:", (int)s.hasBasis(), s.basisStatus(), s.numRows(), s.numCols());
+    for (int v : r) fprintf(stderr, " %d", v); fprintf(stderr, " colstat:"); for (int v : c) fprintf(stderr, " %d", v); fprintf(stderr, " bind:"); for (int v : b) fprintf(stderr, " %d", v); fprintf(stderr, "\n");
+  }
 }
 
 // every accessor of the real LP equals the double image of the model, bit for bit
@@ -97,11 +102,13 @@ void Executor::op_modify(const Op& op, TaskCtx& t) {
   int m = lp.nrows(), n = lp.ncols();
   auto val = [&](int mag) { Q v = model::gen_value(r, gc, mag); return rat ? v : real_in(v); };
   auto toD = [&](const Ext& e) { return model::ext_to_double(e, inf); };
+  auto fixE = [&](Ext e) { if (!rat && e.finite()) e.v = real_in(e.v); return e; };   // what the real interface actually receives
   auto toQ = [&](const Ext& e) { return e.inf > 0 ? qinf : e.inf < 0 ? Q(-qinf) : e.v; };
   auto bounds = [&](Ext& lo, Ext& up, int mag) {   // random consistent pair
     int t2 = r.range(0, 9); Q a = r.chance(0.5) ? Q(0) : val(mag);
     if (t2 <= 2) { lo = Ext(a); up = Ext::pinf(); } else if (t2 <= 4) { lo = Ext::ninf(); up = Ext(a); } else if (t2 <= 6) { lo = Ext(a); up = Ext(Q(a + abs(val(mag)))); }
-    else if (t2 == 7) { lo = Ext(a); up = Ext(a); } else { lo = Ext::ninf(); up = Ext::pinf(); } };
+    else if (t2 == 7) { lo = Ext(a); up = Ext(a); } else { lo = Ext::ninf(); up = Ext::pinf(); }
+    lo = fixE(lo); up = fixE(up); if (up < lo) up = lo; };
   auto sparse = [&](int dim, std::vector<Q>& dense) { dense.assign(dim, Q(0)); for (int k = 0; k < dim; k++) if (r.chance(0.5)) dense[k] = val(6); };
   auto svD = [&](const std::vector<Q>& d) { sut::SVec v; for (size_t k = 0; k < d.size(); k++) if (d[k] != 0) { v.idx.push_back((int)k); v.val.push_back(model::q_to_double_nearest(d[k])); } return v; };
   auto svQ = [&](const std::vector<Q>& d) { sut::SVecQ v; for (size_t k = 0; k < d.size(); k++) if (d[k] != 0) { v.idx.push_back((int)k); v.val.push_back(d[k]); } return v; };
@@ -109,7 +116,7 @@ void Executor::op_modify(const Op& op, TaskCtx& t) {
   count("mod:" + kind + (rat ? ":rat" : ":real"));
 
   if (kind == "addrow") { std::vector<Q> c; sparse(n, c); Ext l, u; bounds(l, u, 9); if (rat) s.addRowQ(toQ(l), svQ(c), toQ(u), form); else s.addRow(toD(l), svD(c), toD(u)); lp.addRow(l, c, u); }
-  else if (kind == "addcol") { std::vector<Q> c; sparse(m, c); Ext l, u; bounds(l, u, 5); Q ob = r.chance(0.3) ? Q(0) : val(8); if (rat) s.addColQ(ob, toQ(l), svQ(c), toQ(u), form); else s.addCol(model::q_to_double_nearest(ob), toD(l), svD(c), toD(u)); lp.addCol(ob, l, c, u); }
+  else if (kind == "addcol") { std::vector<Q> c; sparse(m, c); Ext l, u; bounds(l, u, 5); Q ob = r.chance(0.3) ? Q(0) : val(8); if (opt_.verbose) { fprintf(stderr, "[addcol] obj=%s lo=%s up=%s :", ob.get_str().c_str(), l.str().c_str(), u.str().c_str()); for (int i = 0; i < m; i++) if (c[i] != 0) fprintf(stderr, " %d:%s", i, c[i].get_str().c_str()); fprintf(stderr, "\n"); } if (rat) s.addColQ(ob, toQ(l), svQ(c), toQ(u), form); else s.addCol(model::q_to_double_nearest(ob), toD(l), svD(c), toD(u)); lp.addCol(ob, l, c, u); }
   else if (kind == "addrows") {
     int k = r.range(1, 3); std::vector<std::vector<Q>> cs(k); std::vector<Ext> ls(k), us(k);
     for (int q = 0; q < k; q++) { sparse(n, cs[q]); bounds(ls[q], us[q], 9); }
@@ -126,8 +133,8 @@ void Executor::op_modify(const Op& op, TaskCtx& t) {
   }
   else if (kind == "chgrow" && m > 0) { int i = r.range(0, m - 1); std::vector<Q> c; sparse(n, c); Ext l, u; bounds(l, u, 9); if (rat) s.changeRowQ(i, toQ(l), svQ(c), toQ(u)); else s.changeRow(i, toD(l), svD(c), toD(u)); lp.A[i] = c; lp.lhs[i] = l; lp.rhs[i] = u; }
   else if (kind == "chgcol" && n > 0) { int j = r.range(0, n - 1); std::vector<Q> c; sparse(m, c); Ext l, u; bounds(l, u, 5); Q ob = val(8); if (rat) s.changeColQ(j, ob, toQ(l), svQ(c), toQ(u)); else s.changeCol(j, model::q_to_double_nearest(ob), toD(l), svD(c), toD(u)); for (int i = 0; i < m; i++) lp.A[i][j] = c[i]; lp.lo[j] = l; lp.up[j] = u; lp.obj[j] = ob; }
-  else if (kind == "chglhs" && m > 0) { int i = r.range(0, m - 1); Ext l = lp.rhs[i].finite() ? Ext(Q(lp.rhs[i].v - abs(val(6)))) : Ext(val(9)); if (r.chance(0.2)) l = Ext::ninf(); if (rat) s.changeLhsQ(i, toQ(l), form); else s.changeLhs(i, toD(l)); lp.lhs[i] = l; }
-  else if (kind == "chgrhs" && m > 0) { int i = r.range(0, m - 1); Ext u = lp.lhs[i].finite() ? Ext(Q(lp.lhs[i].v + abs(val(6)))) : Ext(val(9)); if (r.chance(0.2)) u = Ext::pinf(); if (rat) s.changeRhsQ(i, toQ(u), form); else s.changeRhs(i, toD(u)); lp.rhs[i] = u; }
+  else if (kind == "chglhs" && m > 0) { int i = r.range(0, m - 1); Ext l = lp.rhs[i].finite() ? Ext(Q(lp.rhs[i].v - abs(val(6)))) : Ext(val(9)); if (r.chance(0.2)) l = Ext::ninf(); l = fixE(l); if (rat) s.changeLhsQ(i, toQ(l), form); else s.changeLhs(i, toD(l)); lp.lhs[i] = l; }
+  else if (kind == "chgrhs" && m > 0) { int i = r.range(0, m - 1); Ext u = lp.lhs[i].finite() ? Ext(Q(lp.lhs[i].v + abs(val(6)))) : Ext(val(9)); if (r.chance(0.2)) u = Ext::pinf(); u = fixE(u); if (rat) s.changeRhsQ(i, toQ(u), form); else s.changeRhs(i, toD(u)); lp.rhs[i] = u; }
   else if (kind == "chgrange" && m > 0) { int i = r.range(0, m - 1); Ext l, u; bounds(l, u, 9); if (rat) s.changeRangeQ(i, toQ(l), toQ(u), form); else s.changeRange(i, toD(l), toD(u)); lp.lhs[i] = l; lp.rhs[i] = u; }
   else if (kind == "chglhsvec" || kind == "chgrhsvec" || kind == "chgrangevec") {
     std::vector<Ext> l(m), u(m); for (int i = 0; i < m; i++) { bounds(l[i], u[i], 9); if (kind == "chglhsvec") { u[i] = lp.rhs[i]; if (u[i] < l[i]) l[i] = Ext::ninf(); } if (kind == "chgrhsvec") { l[i] = lp.lhs[i]; if (u[i] < l[i]) u[i] = Ext::pinf(); } }
@@ -135,8 +142,8 @@ void Executor::op_modify(const Op& op, TaskCtx& t) {
     else { std::vector<double> a, b; for (int i = 0; i < m; i++) { a.push_back(toD(l[i])); b.push_back(toD(u[i])); } if (kind == "chglhsvec") s.changeLhsVec(a); else if (kind == "chgrhsvec") s.changeRhsVec(b); else s.changeRangeVec(a, b); }
     for (int i = 0; i < m; i++) { if (kind != "chgrhsvec") lp.lhs[i] = l[i]; if (kind != "chglhsvec") lp.rhs[i] = u[i]; }
   }
-  else if (kind == "chglower" && n > 0) { int j = r.range(0, n - 1); Ext l = lp.up[j].finite() ? Ext(Q(lp.up[j].v - abs(val(5)))) : Ext(val(5)); if (r.chance(0.2)) l = Ext::ninf(); if (rat) s.changeLowerQ(j, toQ(l), form); else s.changeLower(j, toD(l)); lp.lo[j] = l; }
-  else if (kind == "chgupper" && n > 0) { int j = r.range(0, n - 1); Ext u = lp.lo[j].finite() ? Ext(Q(lp.lo[j].v + abs(val(5)))) : Ext(val(5)); if (r.chance(0.2)) u = Ext::pinf(); if (rat) s.changeUpperQ(j, toQ(u), form); else s.changeUpper(j, toD(u)); lp.up[j] = u; }
+  else if (kind == "chglower" && n > 0) { int j = r.range(0, n - 1); Ext l = lp.up[j].finite() ? Ext(Q(lp.up[j].v - abs(val(5)))) : Ext(val(5)); if (r.chance(0.2)) l = Ext::ninf(); l = fixE(l); if (rat) s.changeLowerQ(j, toQ(l), form); else s.changeLower(j, toD(l)); lp.lo[j] = l; }
+  else if (kind == "chgupper" && n > 0) { int j = r.range(0, n - 1); Ext u = lp.lo[j].finite() ? Ext(Q(lp.lo[j].v + abs(val(5)))) : Ext(val(5)); if (r.chance(0.2)) u = Ext::pinf(); u = fixE(u); if (rat) s.changeUpperQ(j, toQ(u), form); else s.changeUpper(j, toD(u)); lp.up[j] = u; }
   else if (kind == "chgbounds" && n > 0) { int j = r.range(0, n - 1); Ext l, u; bounds(l, u, 5); if (rat) s.changeBoundsQ(j, toQ(l), toQ(u), form); else s.changeBounds(j, toD(l), toD(u)); lp.lo[j] = l; lp.up[j] = u; }
   else if (kind == "chglowervec" || kind == "chguppervec" || kind == "chgboundsvec") {
     std::vector<Ext> l(n), u(n); for (int j = 0; j < n; j++) { bounds(l[j], u[j], 5); if (kind == "chglowervec") { u[j] = lp.up[j]; if (u[j] < l[j]) l[j] = Ext::ninf(); } if (kind == "chguppervec") { l[j] = lp.lo[j]; if (u[j] < l[j]) u[j] = Ext::pinf(); } }
@@ -305,7 +312,9 @@ void Executor::op_param(const Op& op, Obj& o) {
     if (r.chance(0.5)) other.setInt(P::i("storeBasisSimplexFreq"), r.range(1, 50000));
     if (r.chance(0.5)) other.setReal(P::r("precision_boosting_factor"), 1.0 + r.range(0, 8));
     if (r.chance(0.5)) other.setBool(P::b("recovery_mechanism"), r.chance(0.5));
-    if (r.chance(0.5)) other.setInt(P::i("syncmode"), r.range(0, 2));
+    // histories with LP modifications keep the synchronisation mode they were started with (the single-LP model of this engine describes
+    // ONLYREAL and AUTO; MANUAL and mode switches are not modelled); pure parameter histories (any=1) vary it
+    if (any) { if (r.chance(0.5)) other.setInt(P::i("syncmode"), r.range(0, 2)); } else other.setInt(P::i("syncmode"), s.getInt(P::i("syncmode")));
     other.setInt(P::i("verbosity"), 0); other.setInt(P::i("objsense"), s.getInt(P::i("objsense"))); other.setReal(P::r("obj_offset"), s.getReal(P::r("obj_offset")));
     bool ok = s.copySettingsFrom(other);
     if (!ok) viol("C15", "setsettings_failed", "setSettings() with valid settings returned false");
